@@ -411,8 +411,8 @@ pub fn gen_general(p: &mut Prng, id: String) -> FwCase {
     cfg.density = *p.pick(&[25, 40, 60]);
     let n = p.below(5) as usize;
     let machines: Vec<Machine> = (0..n).map(|_| genm::gen_machine(p, &cfg)).collect();
-    let fp = *p.pick(&[0.0, 0.0, 0.5, 1.0, 1e-9, 0.25]);
-    let fb = *p.pick(&[0.0, 0.0, 0.5, 1.0, 0.01]);
+    let fp = *p.pick(&[0.0, 0.0, 0.0, 0.5, 1.0, 1e-9, 0.25, f64::MIN_POSITIVE, f64::EPSILON, 5e-324, -0.0]);
+    let fb = *p.pick(&[0.0, 0.0, 0.0, 0.5, 1.0, 0.01, f64::MIN_POSITIVE, f64::EPSILON, 1e-300, -0.0]);
     let single = p.chance(1, 2);
     let wild = p.chance(1, 2);
     let calls = gen_history(p, n, single, 80, wild);
